@@ -25,11 +25,16 @@ type c12Case struct {
 	Blocks []c12Block `json:"blocks"`
 	X      string     `json:"x"`
 	Food   string     `json:"food"`
+	Begin  int        `json:"begin"` // day numbers for the commands that carry a period
+	End    int        `json:"end"`
 }
 
 func (b c12Block) text() string { return vDoc{Recs: b.Recs}.Render() }
 
 var c12PerDay = [][]string{
+	{"reg", "--no-color", "-e", "@END@"},
+	{"csv", "log", "-b", "@BEGIN@", "-e", "@END@"},
+	{"print", "-b", "@BEGIN@"},
 	{"reg", "--no-color"},
 	{"reg", "--no-color", "--internal-template-name", "left-aligned"},
 	{"reg", "--no-color", "--use-old-reg-reporter"},
@@ -40,6 +45,7 @@ var c12PerDay = [][]string{
 }
 
 var c12Period = [][]string{
+	{"report", "quantity", "-e", "@END@"},
 	{"bal"},
 	{"bal", "-s", "@X@"},
 	{"report", "totals"},
@@ -63,6 +69,8 @@ func c12Maps(cmd []string, out string) map[string][]*big.Rat {
 			m[r.Name] = []*big.Rat{vNum(r.Pos), vNum(r.Neg), vNum(r.Sum)}
 		}
 	case cmd[1] == "quantity":
+		fallthrough
+	case cmd[0] == "report" && len(cmd) > 2 && cmd[1] == "quantity":
 		for _, r := range vReadValName(out) {
 			m[r.Name] = []*big.Rat{vNum(r.Val)}
 		}
@@ -77,13 +85,20 @@ func checkC12(c c12Case, ctx *vCtx) *vFailure {
 		for i, a := range cmd {
 			a = strings.ReplaceAll(a, "@X@", c.X)
 			a = strings.ReplaceAll(a, "@FOOD@", c.Food)
+			a = strings.ReplaceAll(a, "@BEGIN@", vFmtDay(c.Begin, ""))
+			a = strings.ReplaceAll(a, "@END@", vFmtDay(c.End, ""))
 			out[i] = a
 		}
 		return out
 	}
 	run := func(logText string, cmd []string) string {
 		lp := vWriteFile("c12-log.yaml", logText)
-		r := vRunApp(vInvocation{Args: append([]string{"--today", vToday, "-d", bookPath, "-l", lp}, subst(cmd)...)})
+		sc := subst(cmd)
+		var global []string
+		if sc[0] == "report" && len(sc) > 2 { // report sub-commands take the period as global flags
+			global, sc = sc[2:], sc[:2]
+		}
+		r := vRunApp(vInvocation{Args: append(append(append([]string{"--today", vToday}, global...), "-d", bookPath, "-l", lp), sc...)})
 		ctx.Run(1)
 		if r.Failed {
 			vFault("C12: %v failed on a valid log: %s", cmd, r)
@@ -200,7 +215,10 @@ func genC12(t *rapid.T) c12Case {
 	if rapid.IntRange(0, 3).Draw(t, "varlayout") == 0 {
 		lo = vLayoutOpts{EOL: "mixed"}
 	}
-	nextDay := 0
+	// the history may start just before a leap-year end (2020-12-30, 2024-12-30) or a month end
+	nextDay := []int{0, 0, -2, 1459, 57}[rapid.IntRange(0, 4).Draw(t, "startday")]
+	c.Begin = nextDay + rapid.IntRange(0, 4).Draw(t, "begin")
+	c.End = nextDay + rapid.IntRange(0, 6).Draw(t, "end")
 	var allDays []vRec
 	var allDayNums []int
 	genDay := func(rt *rapid.T, day int, minEntries int) vRec {
@@ -294,7 +312,7 @@ func init() { vRegister("C12", "c12.stateful", checkC12) }
 
 func TestVerifC12Stateful(t *testing.T) {
 	vRapid(t, "C12", "c12.stateful",
-		"rapid state machine: actions append a fresh day, a day with an already used date, an empty day, a permutation of an earlier day, or a block of 2-3 days, to a history of up to 8 (quick) / 20 (thorough) blocks over a random book; after every step the 7 per-day reports of the concatenated log must equal the concatenation of the parts' reports byte for byte and the 4 period reports the element-wise sum of the parts; non-trivial = >=3 blocks with a repeated date, an empty day or a permuted day",
+		"rapid state machine: actions append a fresh day, a day with an already used date, an empty day, a permutation of an earlier day, or a block of 2-3 days, to a history of up to 8 (quick) / 20 (thorough) blocks over a random book; after every step the 10 per-day reports (3 of them under a fixed -b/-e period) of the concatenated log must equal the concatenation of the parts' reports byte for byte and the 5 period reports the element-wise sum of the parts; non-trivial = >=3 blocks with a repeated date, an empty day or a permuted day",
 		vBudget(1200, 8000), genC12, checkC12)
 }
 
